@@ -136,6 +136,53 @@ def units(tier):
         ctx.prove("no-second-level-of-subscribers", nested)
     unit("serial/distributor-queue", r_dist)
 
+
+    # subscription histories: every order of leaving and (re)joining among three subscribers
+    import itertools
+    for leaver, hist in itertools.product((0, 1, 2), ("leave-join", "leave-join-leave", "leave-rejoin")):
+        def r_hist(ctx, interp, fn, leaver=leaver, hist=hist):
+            """whoever is subscribed when a report is distributed gets it exactly once, whatever happened before"""
+            world = World(ctx, interp)
+            install(interp, world)
+            parent, kids = dist_queue(ctx, 3)
+            call = lambda name, *a: interp.call(interp.get_attr(parent, name), a, {})      # noqa: E731
+            if ctx.native:
+                newcomer = SER.DistributorQueue(parent)
+                call("del_handler", newcomer)       # created subscribed; it joins later
+            else:
+                newcomer = ctx.new(SER.DistributorQueue, _handlers={}, _parent=parent)
+            x1, x2, x3 = ctx.int("item1", 0, 255), ctx.int("item2", 0, 255), ctx.int("item3", 0, 255)
+            subscribed = {0: True, 1: True, 2: True, "new": False}
+            want = {0: [], 1: [], 2: [], "new": []}
+
+            def distribute(x):
+                call("distribute", x)
+                for k, on in subscribed.items():
+                    if on:
+                        want[k].append(x)
+            distribute(x1)
+            call("del_handler", kids[leaver])
+            subscribed[leaver] = False
+            if hist == "leave-rejoin":
+                call("add_handler", kids[leaver])
+                subscribed[leaver] = True
+            else:
+                call("add_handler", newcomer)
+                subscribed["new"] = True
+            distribute(x2)
+            if hist == "leave-join-leave":
+                other = (leaver + 1) % 3
+                call("del_handler", kids[other])
+                subscribed[other] = False
+            distribute(x3)
+            ctx.cover()
+            for k in (0, 1, 2):
+                ctx.prove("subscriber-%d-gets-exactly-the-reports-made-while-it-was-subscribed" % k,
+                          values_equal(q_items(kids[k]), want[k]), detail="got %r, expected %r" % (q_items(kids[k]), want[k]))
+            ctx.prove("newcomer-gets-exactly-the-reports-made-after-it-joined", values_equal(q_items(newcomer), want["new"]),
+                      detail="got %r, expected %r" % (q_items(newcomer), want["new"]))
+        unit("serial/distributor-queue-history/%s/leaver=%d" % (hist, leaver), r_hist)
+
     def r_dist_hash(ctx, interp, fn):
         """children are registered under hash(child): the real add_handler / del_handler pair"""
         world = World(ctx, interp)
@@ -414,6 +461,7 @@ def watcher_units(unit):
 
 # checks whose proof units establish the callee contracts applied here (re-verified by this check, see main.dependency_units)
 DEPENDENCIES = ['C04', 'C05', 'C01']
+INCLUDES = ['C19']      # what the serial receivers deliver (deframing) is established there
 
 META = {
     "level": "proof",
